@@ -138,7 +138,11 @@ def token(draw, bds, max_atoms=6, chem="any", avoid=frozenset(), allow_lead=True
                     rn = ring_no[0] + 1 if ring_no[0] < 99 else 1
                     first, second = (a, b) if nodes.index(a) < nodes.index(b) else (b, a)
                     ro = 1
-                    if (a.label == "C" and b.label == "C" and a.free >= 2 and b.free >= 2 and total_free() - 4 >= need
+                    # a double ring-closure bond only in carbocycles: small unsaturated hetero rings (e.g. the oxaphosphete
+                    # O1C(F)=C1P...) are perceived as aromatic by RDKit and then fail kekulisation - an artefact of RDKit on
+                    # chemistry the library never promised, not a statement about generation (thorough C05, 1 case in 175k)
+                    carbocycle = all(x.label in ("C", "F", "Cl", "Br", "I") for x in nodes)
+                    if (carbocycle and a.label == "C" and b.label == "C" and a.free >= 2 and b.free >= 2 and total_free() - 4 >= need
                             and "ring_bond_symbol" not in avoid and draw(st.integers(0, 2)) == 0):
                         ro = 2  # double ring-closure bond: its symbol is written next to the ring digit
                     first.rings.append((rn, ro))
